@@ -39,7 +39,7 @@ def runjob(j):
     env = dict(env); env["VERIF_OUT"] = out
     extra = {}
     if "llvm14" in tags:
-        extra["/repo/ssa/zz_verif_opaque.go"] = "/verif/tc/src/opaque.go"
+        extra[os.path.join(REPO, "ssa/zz_verif_opaque.go")] = "/verif/tc/src/opaque.go"
     r = go_test_overlay(pkgdir, {"zz_" + fname: materialise(fname)}, "^" + test + "$", tags=tags, env_extra=env, extra_overlay=extra)
     if r.returncode != 0 or not os.path.exists(out):
         return (j, None, r.stdout[-3000:] + r.stderr[-3000:])
